@@ -235,6 +235,7 @@ UNITS = {
             I(RAW, r'^impl RawTableInner$', 'allocation_info', impl='RawTableInner'),
             I(RAW, r'^impl RawTableInner$', 'allocation_size_or_zero', impl='RawTableInner'),
             I(RAW, r'^impl RawTableInner$', 'free_buckets', impl='RawTableInner'),
+            I(RAW, r'^impl < T , A : Allocator > RawTable < T , A >$', 'into_allocation', impl='RawTable<T, A>|<T, A: Allocator>', key='RawTable::into_allocation'),
         ],
     ),
     # C07: HashSet's set algebra over an abstract set view
@@ -1034,6 +1035,20 @@ def alloc_rules(toks, i, out, hit):
                     T('None'), T('='), T('>', ''), T('{'), T('return'), T('Err'), T('(', '')] + F + [T(')', ''), T(';', ''), T('}'), T('}')])
         hit('R22_ok_or_else_question_to_match')
         return c + 2
+    # R14 / R38: `Self::TABLE_LAYOUT` -> `Self::table_layout()`; `ptr::read(&self.alloc)` -> `alloc_read(&self.alloc)`;
+    #            `mem::forget(self)` -> `forget_table(self)`
+    if t.text == 'Self' and seq(i + 1, ':', ':', 'TABLE_LAYOUT'):
+        out.extend([T('Self', t.gap), T(':', ''), T(':', ''), T('table_layout', ''), T('(', ''), T(')', '')])
+        hit('R14_assoc_const_TABLE_LAYOUT_to_opaque_fn')
+        return i + 4
+    if t.text == 'ptr' and seq(i + 1, ':', ':', 'read', '('):
+        out.append(T('alloc_read', t.gap))
+        hit('R38_allocator_handle_moved_out')
+        return i + 4
+    if t.text == 'mem' and seq(i + 1, ':', ':', 'forget', '(', 'self', ')'):
+        out.extend([T('forget_table', t.gap), T('(', ''), T('self', ''), T(')', '')])
+        hit('R38_table_forgotten')
+        return i + 7
     # R37: `alloc.deallocate(P, L)` -> `do_dealloc(alloc, P, L, Ghost(*self), Ghost(table_layout))`: the ghost arguments
     #      name the table and element layout so that "same block, same layout as allocated" is the call's obligation
     if t.text == 'alloc' and seq(i + 1, '.', 'deallocate', '('):
